@@ -278,6 +278,9 @@ type Resp struct {
 	BGResp   map[string][]val.Item `json:"bgResp,omitempty"`
 	BGUnproc map[string][]val.Item `json:"bgUnproc,omitempty"`
 
+	// PairDiff is set by the Product driver when the two clients' responses differ.
+	PairDiff *Diff `json:"-"`
+
 	// model-only hints for comparison
 	SortAttr  string     `json:"sortAttr,omitempty"`  // Query: attribute whose sequence is compared
 	AltItems  []val.Item `json:"altItems,omitempty"`  // Upd: alternative accepted result items
